@@ -304,6 +304,17 @@ EXTRA9 = {
 }
 for k, v in EXTRA9.items():
     claimed[k]["text"] += v
+EXTRA10 = {
+ "C04": " The log level as an environment answer: every single fault and every pair of absent / null faults at depth <= 2 parsed with the library's logger at trace level.",
+ "C06": " Every prefix, at every byte position, of tag-value documents and of the writer's output (inputs cut short).",
+ "C10": " Operands in which one identifier is carried by two or three node objects (all ordered pairs of 105 lists).",
+ "C11": " The whole operation table on every operand variant once more with the library's logger at trace level.",
+ "C15": " Lists with a node whose identifier is empty (every order, edge list, root list and start); the deviation on record for NodeGraph is matched as a known finding, anything else is a violation.",
+ "C16": " Probe digests composed of algorithm numbers, separators and the list node's digest, for every ordered pair of algorithm numbers.",
+ "C18": " A reader fixed to a format in place against per-call options without format and with another format.",
+}
+for k, v in EXTRA10.items():
+    claimed[k]["text"] += v
 
 checks = []
 for pid in all_ids:
